@@ -172,10 +172,10 @@ Proof.
     set (g0 := flat_map (fun c => match c with ModifyFK from _ => [DropFK from] | _ => [] end) tcs).
     set (g1 := map (fun c => match c with ModifyFK _ to => AddFK to | c => c end) tcs).
     assert (E0 : flat_map rm_keys (match g0 with [] => [] | _ :: _ => [ModifyTable t g0] end) =
-                 map (pair (t_name t)) (flat_map tc_rm g0)).
+                 map (pair (qn t)) (flat_map tc_rm g0)).
     { destruct g0; [reflexivity|]. simpl. rewrite app_nil_r. reflexivity. }
     assert (E1 : flat_map rm_keys (match g1 with [] => [] | _ :: _ => [ModifyTable t g1] end) =
-                 map (pair (t_name t)) (flat_map tc_rm g1)).
+                 map (pair (qn t)) (flat_map tc_rm g1)).
     { destruct g1; [reflexivity|]. simpl. rewrite app_nil_r. reflexivity. }
     rewrite flat_map_app, E0, E1, <- map_app. apply Permutation_map.
     unfold g0, g1. clear. induction tcs as [|tc tcs IH]; simpl; [constructor|].
